@@ -378,7 +378,7 @@ func runOnce(t *testing.T, sc *Scenario, sched detsim.SchedConfig, record bool, 
 		}
 		srv.Close()
 		nw.Close()
-		res.faults = srv.Faults
+		res.faults = srv.FaultCounts()
 		res.order = strings.Join(order, ",")
 	})
 	res.grids = len(be.grids)
